@@ -162,6 +162,8 @@ func VerifC14Framing() {
 			return DiscardInput(r, h.Length)
 		})
 	}
+	// configuration is part of the node's state: small and default values of the numeric knobs
+	e.node.config.TxRequestCount = []int{1, 2, 10000}[pick("cfg-tx-request-count", 3)]
 	e.makeReady()
 	cmd, payload, mayExtend := conformantMessage(e, false)
 	extended := mayExtend && nondetBool("extended-framing")
@@ -207,5 +209,67 @@ func VerifC14Discard() {
 	err := DiscardInput(c, uint64(n))
 	verifAssert(err == nil, "discard-returns-error")
 	verifAssert(c.pos == n, "discard-consumed-wrong-number-of-bytes")
+	verifReach("done")
+}
+
+func init() {
+	verifHarnesses["VerifC14FullLists"] = VerifC14FullLists
+}
+
+// VerifC14FullLists: lists filled to the protocol's maximum (inv, headers, addr) with fresh,
+// concrete entries are consumed to their declared length; the following ping is answered.
+func VerifC14FullLists() {
+	e := newNetEnv(true)
+	e.makeReady()
+	var cmd string
+	var payload []byte
+	switch pick("list", 3) {
+	case 0:
+		n := verifParam("invcount", wire.MaxInvPerMsg)
+		m := wire.NewMsgInvSizeHint(uint(n))
+		for i := 0; i < n; i++ {
+			var h bitcoin.Hash32
+			h[0], h[1], h[2], h[3] = byte(i), byte(i>>8), byte(i>>16), 0x99
+			m.AddInvVect(wire.NewInvVect(wire.InvTypeTx, &h))
+		}
+		cmd, payload = m.Command(), encodeMsg(m)
+	case 1:
+		n := verifParam("headercount", wire.MaxBlockHeadersPerMsg)
+		m := wire.NewMsgHeaders()
+		var prev bitcoin.Hash32
+		for i := 0; i < n; i++ {
+			h := &wire.BlockHeader{Version: 1, Timestamp: uint32(1600000000 + i), Bits: 0x1d00ffff, Nonce: uint32(i), PrevBlock: prev}
+			prev[0], prev[1] = byte(i), byte(i>>8)
+			m.AddBlockHeader(h)
+		}
+		cmd, payload = m.Command(), encodeMsg(m)
+	case 2:
+		n := verifParam("addrcount", wire.MaxAddrPerMsg)
+		m := wire.NewMsgAddr()
+		for i := 0; i < n; i++ {
+			ip := []byte{0, 0, 0, 0, 0, 0, 0, 0, 0, 0, 0xff, 0xff, 10, byte(i >> 8), byte(i), 1}
+			m.AddAddress(wire.NewNetAddressIPPort(ip, 8333, wire.SFNodeNetwork))
+		}
+		cmd, payload = m.Command(), encodeMsg(m)
+	}
+	first := frameMsg(cmd, payload, false)
+	nonce := nondetU64("ping-nonce")
+	second := frameMsg(wire.CmdPing, encodeMsg(wire.NewMsgPing(nonce)), false)
+	e.conn.in = append(append([]byte(nil), first...), second...)
+	err1 := e.node.handleMessage(e.ctx, e.conn)
+	verifObserve("full", cmd, len(payload), err1 == nil, e.conn.pos, len(first))
+	verifAssert(err1 == nil, "full-list-message-fails:"+cmd)
+	verifAssert(e.conn.pos == len(first), "message-not-consumed-to-its-declared-length:"+cmd)
+	e.drainOutgoing()
+	err2 := e.node.handleMessage(e.ctx, e.conn)
+	verifAssert(err2 == nil, "ping-after-message-fails:"+cmd)
+	gotPong := false
+	for _, m := range e.drainOutgoing() {
+		if p, ok := m.(*wire.MsgPong); ok {
+			gotPong = true
+			verifAssert(p.Nonce == nonce, "pong-carries-wrong-nonce:"+cmd)
+		}
+	}
+	verifAssert(gotPong, "ping-after-message-not-answered:"+cmd)
 	verifReach("done")
 }
